@@ -237,7 +237,7 @@ func dnlList(m map[dnlKey]bool) []map[string]any {
 	return out
 }
 
-var fwdScanNames = []string{"/", "/a", "/a/b", "/a/b/c", "/a/b/c/e", "/d", "/d/f", "/localhost/x", "/localhost/x/y", "/h", "/r/x", fwdCollide}
+var fwdScanNames = []string{"/", "/a", "/a/b", "/a/b/c", "/a/b/c/e", "/d", "/d/f", "/localhost/x", "/localhost/x/y", "/h", "/r/x", fwdCollide, fwdTyped}
 
 func (x *fwdExec) ticksOf(ns int64) int {
 	d := time.Unix(0, ns).Sub(x.t0)
@@ -570,8 +570,11 @@ func runFwdExecution(t *testing.T, w *traceWriter, capacity int, algo string, ne
 // concatenates (type, value) pairs without lengths cannot tell it from /a/b
 const fwdCollide = "/a%00%00%00%00%00%00%00%08b"
 
-var fwdINames = []string{"/a", "/a/b", "/a/b/c", "/d", "/localhost/x", "/", fwdCollide}
-var fwdDNames = []string{"/", "/a", "/a/b", "/a/b/c", "/a/b/c/e", "/d", "/d/f", "/localhost/x", "/localhost/x/y", fwdCollide, "/a/b"}
+// fwdTyped differs from /a/b only in the TYPE of its second component (a name hash that forgets the type merges them)
+const fwdTyped = "/a/32=b"
+
+var fwdINames = []string{"/a", "/a/b", "/a/b/c", "/d", "/localhost/x", "/", fwdCollide, fwdTyped}
+var fwdDNames = []string{"/", "/a", "/a/b", "/a/b/c", "/a/b/c/e", "/d", "/d/f", "/localhost/x", "/localhost/x/y", fwdCollide, "/a/b", fwdTyped}
 
 func genFwdAct(rng *rand.Rand, x *fwdExec, i, nEv int) fwdAct {
 	switch k := rng.Intn(100); {
@@ -596,6 +599,9 @@ func genFwdAct(rng *rand.Rand, x *fwdExec, i, nEv int) fwdAct {
 		if len(x.seenI) > 0 && rng.Intn(3) == 0 {
 			p := x.seenI[rng.Intn(len(x.seenI))]
 			in.N, in.Cbp, in.Mbf, in.Hints = p.N, p.Cbp, p.Mbf, p.Hints
+		}
+		if rng.Intn(14) == 0 { // a /localhost name behind a forwarding hint: the FIB lookup goes by the hint, the scope rule by the name
+			in.N, in.Hints = strs("/localhost/x"), [][]string{{"h"}}
 		}
 		in.Dtok = in.F*10 + rng.Intn(2)
 		x.seenI = append(x.seenI, in)
@@ -670,6 +676,9 @@ func TestFwdGen(t *testing.T) {
 		total += runFwdExecution(t, w, []int{0, 1, 2, 2, 6}[rng.Intn(5)], algo, func(x *fwdExec, i int) (fwdAct, bool) {
 			if i >= nEv {
 				return fwdAct{}, false
+			}
+			if tr%3 == 1 && i < 2 { // routes for the forwarding hints of the universe, towards non-local and local faces
+				return fwdAct{Ev: "E", E: "fib+", P: strs([]string{"/h", "/r/x"}[i]), G: []int{3, 4, 1, 5}[rng.Intn(4)], C: 1 + rng.Intn(3)}, true
 			}
 			return genFwdAct(rng, x, i, nEv), true
 		})
